@@ -40,6 +40,11 @@ def cases(chk):
         yield "lib-decodes-ref", {"tree": to_json(("iq", [("id", "12-3.5")], b"99@g.us", [])), "seed": 100 + s, "deflate": 0}
     big = ("enc", [], bytes([1]) * 0x100000, [])
     yield "lib-decodes-ref", {"tree": to_json(("m", [], None, [big, ("z", [], None, [])])), "seed": 3, "deflate": 0}
+    # the length forms change at 2^20 bytes: what the LIBRARY writes for contents and strings around and above 1 MiB, read by the reference decoder
+    for n in ((0xFFFFF, 0x100000, 0x100005) if chk.quick() else (0xFFFFF, 0x100000, 0x100001, 0x100005, 0x300000, 0x7FFFFF, 0x800000)):
+        yield "ref-decodes-lib", {"tree": to_json(("m", [("id", "b%d" % n)], None, [("enc", [], bytes([n % 251 + 1]) * n, []), ("z", [], None, [])]))}
+        if n <= 0x100005:
+            yield "ref-decodes-lib", {"tree": to_json(("m", [("v", "y" * n), ("after", "1")], None, []))}
     # list headers around every size boundary: integer literals of the current coder sources, +-1 (children count, and the node's own
     # list size 1 + 2*attributes + content)
     sizes = sorted(set(v + d for v in chk.lits for d in (-1, 0, 1) if 1 <= v + d <= (2000 if chk.quick() else 65535)) | {255, 256, 257})      # (lists of 65,536 and more are outside the format)
